@@ -1,4 +1,5 @@
 import DilithiumVerif.Props.C08
+import DilithiumVerif.Lemmas.VerifySpec
 /-
   C03 — Verification decides exactly as the specification (strict decoding, bounds).
   Part 1: the decision logic stated outright on the model of `verify` — which inputs are rejected whatever
@@ -62,5 +63,35 @@ theorem core_some_gates (p : Params) (sig pk trh c buf : List Nat) (h : verify_c
         exact ⟨hl, rt, u, hrt, hu, hok, r, hr, hr0⟩
     · cases h
   · cases h
+
+/-! ## The decision in the specification's terms -/
+
+open DV.Complete DV.RoundSem DV.VecSem DV.HintCodec in
+/-- **Verification decides as the specification prescribes** (FIPS 204 Alg. 8 for ML-DSA, Dilithium 3.1 Verify for
+    dilithium2/3/5), for each of the six sets and arbitrary bytes. For a public key of the right length decoding to
+    (ρ, t1) with A = ExpandA(ρ), and a string of SIGNBYTES bytes that decodes canonically to (c̃, z, h) with
+    c = SampleInBall(c̃): there is a unique w′ with coefficients in [0, q) equal to A·z − c·t1·2^13 in ℤ_q[X]/(X^256+1)
+    (given by its 256 NTT-point values per row), w1′ = UseHint(h, w′) coefficient by coefficient (Spec.UseHint = FIPS 204
+    Alg. 40), and
+      verify = false                         if ‖z‖∞ ≥ γ1 − β,
+      verify = [c̃ = H(μ ‖ w1Encode(w1′))]    otherwise,   μ = H(H(pk) ‖ M′).
+    Together with `rejects_noncanonical_hint` (hint section not canonical ⇒ false) and
+    `C08.wrong_length_is_false_not_fault` (any other length ⇒ false) this covers every byte string: in particular the
+    boundary cases (‖z‖∞ = γ1 − β − 1, exactly ω hints) and signatures of other conforming signers are accepted exactly
+    when the hash matches. -/
+theorem verify_decides_as_spec (p : Params) (hp : p ∈ allParams) (sig m pk : List Nat) (hpk : pk.length = p.pkBytes)
+    (hsl : sig.length = p.sigBytes) (hb : ∀ b ∈ sig, b < 256)
+    (rho : List Nat) (t1 : PolyVec) (hupk : unpack_pk p pk = .ok (rho, t1))
+    (mat : List PolyVec) (hme : matrix_expand p FUEL rho = .ok mat)
+    (c : List Nat) (z h : PolyVec) (husig : unpack_sig p sig = .ok (true, c, z, h))
+    (cp : Poly) (hcp : poly_challenge p FUEL c = .ok cp) :
+    ∃ trh wv w1, shake256 CRHBYTES p.trBytes pk p.pkBytes = .ok trh ∧ wv.length = p.k ∧ (∀ a ∈ wv, Std a) ∧
+      (∀ r, r < p.k → ∀ i, i < 256 →
+        (El (wv.getD r []) i : K) = rowDot (mat.getD r []) z p.l i - ((8192 : Int) : K) * El cp i * El (t1.getD r []) i) ∧
+      All3 (fun a hp' x => All3 (fun v u y => y = Spec.UseHint (gamma2Of p.lvl) u v) a hp' x) wv h w1 ∧
+      verify p sig m pk =
+        (if ∃ a ∈ z, ∃ x ∈ a, (p.gamma1 : Int) - p.beta ≤ C18.iabs x then .ok false
+         else compute_mu trh p.trBytes m >>= fun mu => compute_ctilde p mu (k_pack_w1 p.lvl w1) >>= fun c2 => .ok (decide (c = c2))) :=
+  verify_decision p hp sig m pk hpk hsl hb rho t1 hupk mat hme c z h husig cp hcp
 
 end DV.C03
